@@ -32,7 +32,7 @@ ASSUMPTIONS = [
 
 KINDS = ["line", "line", "bar", "map", "pithist", "igncontrib", "obsfcst", "qq", "freq", "roc", "timeseries", "scatter", "marginal", "spreadskill", "error", "cond"]
 SHAPES = ["full2", "full3", "full2-nomissing"]
-COLORS = {"red": [1.0, 0.0, 0.0, 1.0], "blue": [0.0, 0.0, 1.0, 1.0], "green": [0.0, 0.502, 0.0, 1.0], "k": [0.0, 0.0, 0.0, 1.0], "0.3": [0.3, 0.3, 0.3, 1.0]}
+COLORS = {"red": [1.0, 0.0, 0.0, 1.0], "blue": [0.0, 0.0, 1.0, 1.0], "green": [0.0, 0.502, 0.0, 1.0], "k": [0.0, 0.0, 0.0, 1.0], "0.3": [0.3, 0.3, 0.3, 1.0], "[0.3,0,0]": [0.3, 0.0, 0.0, 1.0]}
 LEGLOC = {"upper_left": 2, "lower_right": 4, "center": 10, "upper_right": 1, "lower_left": 3}
 
 # option -> (kinds it is generated for, value strategy)
@@ -63,7 +63,7 @@ OPTIONS = {
     "labfs": (["line", "bar", "pithist", "igncontrib", "obsfcst", "qq", "freq", "roc", "timeseries", "scatter", "marginal", "spreadskill", "error", "cond"], st.sampled_from([9.0, 21.0])),
     "tickfs": (["line", "pithist", "igncontrib", "obsfcst", "qq", "freq", "roc", "timeseries", "scatter", "marginal", "spreadskill", "error", "cond"], st.sampled_from([7.0, 19.0])),
     "titlefs": (["line", "pithist", "igncontrib", "map", "obsfcst", "qq", "freq", "roc", "timeseries", "scatter", "marginal", "spreadskill", "error", "cond"], st.sampled_from([9.0, 23.0])),
-    "gc": (["line", "pithist", "igncontrib", "obsfcst", "qq", "freq", "roc", "timeseries", "scatter", "marginal", "spreadskill", "error", "cond"], st.sampled_from(["red", "blue"])),
+    "gc": (["line", "pithist", "igncontrib", "obsfcst", "qq", "freq", "roc", "timeseries", "scatter", "marginal", "spreadskill", "error", "cond"], st.sampled_from(["red", "blue", "0.3", "[0.3,0,0]"])),
     "gs": (["line", "pithist", "igncontrib", "obsfcst", "qq", "freq", "roc", "timeseries", "scatter", "marginal", "spreadskill", "error", "cond"], st.sampled_from([":", "--"])),
     "gw": (["line", "pithist", "igncontrib", "obsfcst", "qq", "freq", "roc", "timeseries", "scatter", "marginal", "spreadskill", "error", "cond"], st.sampled_from([2.0, 0.5])),
     "nogrid": (["line", "pithist", "igncontrib", "bar", "obsfcst", "qq", "freq", "roc", "timeseries", "scatter", "marginal", "spreadskill", "error", "cond"], st.just(True)),
